@@ -4,8 +4,11 @@ import (
 	"bytes"
 	"encoding/json"
 	"fmt"
+	"io"
 	"math/big"
 	"os"
+	"runtime"
+	"runtime/debug"
 	"strings"
 	"sync"
 	"sync/atomic"
@@ -85,6 +88,17 @@ type c05StreamOpt struct {
 	maxUnroll   int           // params.MaxLoopUnroll (0 = default)
 	source      string        // (virtual) source name of the program; native circuit files resolve from its directory
 	label       string
+	// door sweep (c05doors.go)
+	prune      bool               // params.OptPruneGates (apps/garbled sets it by default: -O 1), both compilations
+	gmw        bool               // params.Target = TargetGMW for the streaming compilation
+	direct     bool               // Compiler.CompileSSA + Program.Stream instead of Compiler.Stream
+	pressure   bool               // GOGC=1 and GOMAXPROCS=1 for the duration of the session
+	tcp        bool               // a loopback TCP connection instead of the in-memory transport
+	oracleOnly bool               // no correspondence case (outside the model or too large)
+	comp       *compiler.Compiler // long-lived objects shared by several sessions
+	params     *utils.Params
+	gOT, eOT   ot.OT
+	pre        *c05Stream // the session has already been run (concurrent sessions)
 }
 
 func (o c05StreamOpt) String() string {
@@ -110,6 +124,15 @@ func (o c05StreamOpt) String() string {
 	if o.maxUnroll != 0 {
 		s = append(s, fmt.Sprintf("max-loop-unroll=%d", o.maxUnroll))
 	}
+	for _, f := range []struct {
+		on   bool
+		name string
+	}{{o.prune, "opt-prune-gates"}, {o.gmw, "target-gmw"}, {o.direct, "Program.Stream"}, {o.pressure, "GOGC=1+GOMAXPROCS=1"},
+		{o.tcp, "tcp-loopback"}, {o.comp != nil, "shared-compiler-params-ot"}, {o.pre != nil, "concurrent-sessions"}} {
+		if f.on {
+			s = append(s, f.name)
+		}
+	}
 	return strings.Join(s, "+")
 }
 
@@ -123,15 +146,38 @@ func c05RunStream(src string, gIn, eIn []string, opt c05StreamOpt, rng *RNG, fra
 			defer func() { os.Stdout = old; null.Close() }()
 		}
 	}
+	if opt.pressure {
+		oldGC := debug.SetGCPercent(1)
+		oldP := runtime.GOMAXPROCS(1)
+		defer func() { debug.SetGCPercent(oldGC); runtime.GOMAXPROCS(oldP) }()
+	}
 	start := time.Now()
-	ga, ea, g2e, e2g := newDuplexPair(rng, frag)
+	var ga, ea io.ReadWriteCloser
+	var g2e, e2g *fragQueue
+	if opt.tcp {
+		a, b, err := c05TCPPair()
+		if err != nil {
+			res.gErr, res.eErr = err, err
+			return res
+		}
+		ga, ea = a, b
+	} else {
+		ga, ea, g2e, e2g = newDuplexPair(rng, frag)
+	}
 	gConn := p2p.NewConn(ga)
 	eConn := p2p.NewConn(ea)
 	var gDone, eDone atomic.Bool
 	var wg sync.WaitGroup
 	wg.Add(2)
 	grand := &blockLog{r: rng.Fork(), skipKey: true}
-	spy := &c05OTSpy{inner: ot.NewCO(rng.Fork()), conn: gConn}
+	gOT, eOT := opt.gOT, opt.eOT
+	if gOT == nil {
+		gOT = ot.NewCO(rng.Fork())
+	}
+	if eOT == nil {
+		eOT = ot.NewCO(rng.Fork())
+	}
+	spy := &c05OTSpy{inner: gOT, conn: gConn}
 	ssaBuf := &c05Buf{}
 	go func() {
 		defer wg.Done()
@@ -152,8 +198,19 @@ func c05RunStream(src string, gIn, eIn []string, opt c05StreamOpt, rng *RNG, fra
 			res.gErr = err
 			return
 		}
-		params := utils.NewParams()
+		params := opt.params
+		if params == nil {
+			params = utils.NewParams()
+		}
 		params.Config = &env.Config{Rand: grand}
+		params.OptPruneGates = opt.prune
+		if opt.gmw {
+			params.Target = utils.TargetGMW
+		}
+		comp := opt.comp
+		if comp == nil {
+			comp = compiler.New(params)
+		}
 		params.SSAOut = ssaBuf
 		params.Verbose = opt.verbose
 		params.Diagnostics = opt.diagnostics
@@ -176,14 +233,33 @@ func c05RunStream(src string, gIn, eIn []string, opt c05StreamOpt, rng *RNG, fra
 			defer os.Remove(f.Name())
 			f.WriteString(src)
 			f.Close()
-			res.gOut, res.gRes, res.gErr = compiler.New(params).StreamFile(gConn, spy, f.Name(), gIn, [][]int{sizes0, sizes1})
+			res.gOut, res.gRes, res.gErr = comp.StreamFile(gConn, spy, f.Name(), gIn, [][]int{sizes0, sizes1})
 			return
 		}
 		source := "{data}"
 		if opt.source != "" {
 			source = opt.source
 		}
-		res.gOut, res.gRes, res.gErr = compiler.New(params).Stream(gConn, spy, source,
+		if opt.direct {
+			// the exported pieces Compiler.Stream is made of
+			prog, _, err := comp.CompileSSA(source, strings.NewReader(src), [][]int{sizes0, sizes1})
+			if err != nil {
+				res.gErr = err
+				return
+			}
+			if len(prog.Inputs) != 2 {
+				res.gErr = fmt.Errorf("not a two-party program")
+				return
+			}
+			input, err := prog.Inputs[0].Parse(gIn)
+			if err != nil {
+				res.gErr = err
+				return
+			}
+			res.gOut, res.gRes, res.gErr = prog.Stream(gConn, spy, params, input, circuit.NewTiming())
+			return
+		}
+		res.gOut, res.gRes, res.gErr = comp.Stream(gConn, spy, source,
 			strings.NewReader(src), gIn, [][]int{sizes0, sizes1})
 	}()
 	go func() {
@@ -212,10 +288,10 @@ func c05RunStream(src string, gIn, eIn []string, opt c05StreamOpt, rng *RNG, fra
 		}
 		if opt.eVals != nil {
 			// the value entry: inputFlag empty, inputValues set
-			res.eOut, res.eRes, res.eErr = circuit.StreamEvaluator(eConn, ot.NewCO(rng.Fork()), nil, opt.eVals, opt.verbose)
+			res.eOut, res.eRes, res.eErr = circuit.StreamEvaluator(eConn, eOT, nil, opt.eVals, opt.verbose)
 			return
 		}
-		res.eOut, res.eRes, res.eErr = circuit.StreamEvaluator(eConn, ot.NewCO(rng.Fork()), eIn, nil, opt.verbose)
+		res.eOut, res.eRes, res.eErr = circuit.StreamEvaluator(eConn, eOT, eIn, nil, opt.verbose)
 	}()
 	done := make(chan struct{})
 	go func() { wg.Wait(); close(done) }()
@@ -232,8 +308,8 @@ loop:
 		// many consecutive polls: protocol-level stall.  The garbler compiles
 		// before it talks, so only count polls in which neither side is
 		// computing: a side that is done, or blocked in Read.
-		gBlocked := gDone.Load() || e2g.idle()
-		eBlocked := eDone.Load() || g2e.idle()
+		gBlocked := gDone.Load() || (e2g != nil && e2g.idle())
+		eBlocked := eDone.Load() || (g2e != nil && g2e.idle())
 		if gBlocked && eBlocked && !(gDone.Load() && eDone.Load()) {
 			idle++
 		} else {
@@ -259,9 +335,11 @@ loop:
 	ea.Close()
 	go gConn.Close()
 	go eConn.Close()
-	g2e.mu.Lock()
-	res.g2e = append([]byte(nil), g2e.log...)
-	g2e.mu.Unlock()
+	if g2e != nil {
+		g2e.mu.Lock()
+		res.g2e = append([]byte(nil), g2e.log...)
+		g2e.mu.Unlock()
+	}
 	res.otBegin, res.otEnd = spy.begin, spy.end
 	res.otWires = spy.wires
 	res.ssa = ssaBuf.String()
@@ -297,6 +375,7 @@ func c05RunWhole(src string, gIn, eIn []string, opt c05StreamOpt) (w c05Whole) {
 		return
 	}
 	params := utils.NewParams()
+	params.OptPruneGates = opt.prune
 	if opt.multArray != 0 {
 		params.CircMultArrayTreshold = opt.multArray
 	}
@@ -637,11 +716,22 @@ func c05Classify(pre []c05Premature) string {
 	return ""
 }
 
+// c05ExportMaybe: oracle-only sessions need no step export.
+func c05ExportMaybe(p c05Prog, sizes [][]int) (*c05Exported, error) {
+	if p.opt.oracleOnly {
+		return nil, fmt.Errorf("oracle only")
+	}
+	return c05Export(p.src, sizes, p.opt)
+}
+
 // c05Program runs one program in both modes, evaluates the oracle and, when
 // the run is clean, records the correspondence case.
 func c05Program(c *Ctx, idx int, name string, p c05Prog, frag int) error {
 	r := c.rng.Fork()
-	s := c05RunStream(p.src, p.g, p.e, p.opt, r, frag, 120*time.Second)
+	s := p.opt.pre
+	if s == nil {
+		s = c05RunStream(p.src, p.g, p.e, p.opt, r, frag, 120*time.Second)
+	}
 	w := c05RunWhole(p.src, p.g, p.e, p.opt)
 	if o := p.opt.String(); o != "" {
 		c.Hist("entry:" + o)
@@ -671,6 +761,9 @@ func c05Program(c *Ctx, idx int, name string, p c05Prog, frag int) error {
 	if w.err != nil && s.gErr != nil && !s.stalled {
 		// rejected by the compiler in both modes: not a program
 		c.Hist("rejected-by-compiler")
+		if name == "door" || name == "native" {
+			return fmt.Errorf("case %d (%s %s): a directed program is rejected by the compiler: %v", idx, name, p.opt.label, w.err)
+		}
 		return nil
 	}
 	sizes0, _ := circuit.InputSizes(p.g)
@@ -678,7 +771,7 @@ func c05Program(c *Ctx, idx int, name string, p c05Prog, frag int) error {
 	if p.opt.eVals != nil {
 		sizes1 = p.opt.eSizes
 	}
-	ex, exErr := c05Export(p.src, [][]int{sizes0, sizes1}, p.opt)
+	ex, exErr := c05ExportMaybe(p, [][]int{sizes0, sizes1})
 	if exErr == nil {
 		rec.Premature = ex.premature
 	}
@@ -688,12 +781,18 @@ func c05Program(c *Ctx, idx int, name string, p c05Prog, frag int) error {
 		bad, what = "c05:stall", "streaming session stalled"
 	case s.gErr != nil || s.eErr != nil || w.err != nil:
 		bad, what = "c05:error:"+name, fmt.Sprintf("garbler=%v evaluator=%v whole=%v", s.gErr, s.eErr, w.err)
+		if name == "door" {
+			bad = "c05:error:door:" + p.opt.label
+		}
 	case bigsString(s.gRes) != bigsString(s.eRes):
 		bad, what = "c05:parties-differ", "garbler and evaluator return different values"
 	case bigsString(s.gRes) != bigsString(w.res):
 		what = fmt.Sprintf("streamed result %s differs from whole-circuit result %s", bigsString(s.gRes), bigsString(w.res))
 		if exErr == nil {
 			bad = c05Classify(ex.premature)
+		}
+		if bad == "" && name == "door" {
+			bad = "c05:stream:door:" + p.opt.label + ":wrong-output"
 		}
 		if bad == "" && name == "native" {
 			bad = "c05:stream:native-circuit:" + p.opt.label + ":wrong-output"
@@ -746,6 +845,10 @@ func c05Program(c *Ctx, idx int, name string, p c05Prog, frag int) error {
 		if s.stalled || s.gErr != nil || s.eErr != nil || w.err != nil {
 			return nil
 		}
+	}
+	if p.opt.oracleOnly {
+		c.Hist("oracle-only:" + name)
+		return nil
 	}
 	if exErr != nil {
 		return fmt.Errorf("case %d (%s): export: %v", idx, name, exErr)
@@ -926,6 +1029,11 @@ func runC05(c *Ctx) error {
 			return err
 		}
 		idx++
+	}
+	// the door sweep: entry points, options, call patterns and input constructs
+	// the families above do not use
+	if err := c05Doors(c, &idx); err != nil {
+		return err
 	}
 	// less-travelled entry points: evaluator input as Go values, StreamFile, options
 	for _, p := range c05EntryPrograms(c) {
